@@ -44,9 +44,64 @@ impl Met {
 }
 
 // ---------------------------------------------------------------------------------------------
+// memory layouts: the same logical batch / query presented with different strides
+#[derive(Clone, Copy, Debug, PartialEq)]
+enum Lay { Std, RevCols, RevColsOwned, RevRows, Fortran, StrideRows, StrideCols, StrideBoth }
+impl Lay {
+    fn name(&self) -> &'static str {
+        match self { Lay::Std => "std", Lay::RevCols => "revcols_view", Lay::RevColsOwned => "revcols_owned", Lay::RevRows => "revrows_view",
+                     Lay::Fortran => "fortran", Lay::StrideRows => "stride_rows", Lay::StrideCols => "stride_cols", Lay::StrideBoth => "stride_both" }
+    }
+}
+const LAYS: [Lay; 8] = [Lay::RevCols, Lay::Std, Lay::RevColsOwned, Lay::RevRows, Lay::Fortran, Lay::StrideRows, Lay::StrideCols, Lay::StrideBoth];
+#[derive(Clone, Copy, Debug, PartialEq)]
+enum QLay { Fwd, Rev, Strided }
+impl QLay { fn name(&self) -> &'static str { match self { QLay::Fwd => "fwd", QLay::Rev => "rev", QLay::Strided => "strided" } } }
+
+/// storage whose view with layout `lay` has the logical content of `logical` (junk fills the gaps of strided layouts)
+fn lay_store<F: Fl>(logical: &Array2<F>, lay: Lay) -> Array2<F> {
+    use ndarray::{s, ShapeBuilder};
+    let (n, d) = logical.dim();
+    let junk = F::of(-777.25);
+    match lay {
+        Lay::Std => logical.clone(),
+        Lay::RevCols => logical.slice(s![.., ..;-1]).as_standard_layout().to_owned(),
+        Lay::RevColsOwned => { let base = logical.slice(s![.., ..;-1]).as_standard_layout().to_owned(); base.slice(s![.., ..;-1]).to_owned() }
+        Lay::RevRows => logical.slice(s![..;-1, ..]).as_standard_layout().to_owned(),
+        Lay::Fortran => { let mut a = Array2::from_elem((n, d).f(), junk); a.assign(logical); a }
+        Lay::StrideRows => { let mut a = Array2::from_elem((2 * n, d), junk); a.slice_mut(s![..;2, ..]).assign(logical); a }
+        Lay::StrideCols => { let mut a = Array2::from_elem((n, 2 * d), junk); a.slice_mut(s![.., ..;2]).assign(logical); a }
+        Lay::StrideBoth => { let mut a = Array2::from_elem((2 * n, 2 * d), junk); a.slice_mut(s![..;2, ..;2]).assign(logical); a }
+    }
+}
+fn lay_view<'a, F: Fl>(store: &'a Array2<F>, lay: Lay) -> ndarray::ArrayView2<'a, F> {
+    use ndarray::s;
+    match lay {
+        Lay::Std | Lay::Fortran | Lay::RevColsOwned => store.view(),
+        Lay::RevCols => store.slice(s![.., ..;-1]),
+        Lay::RevRows => store.slice(s![..;-1, ..]),
+        Lay::StrideRows => store.slice(s![..;2, ..]),
+        Lay::StrideCols => store.slice(s![.., ..;2]),
+        Lay::StrideBoth => store.slice(s![..;2, ..;2]),
+    }
+}
+fn qlay_store<F: Fl>(logical: &Array1<F>, ql: QLay) -> Array1<F> {
+    use ndarray::s;
+    match ql {
+        QLay::Fwd => logical.clone(),
+        QLay::Rev => logical.slice(s![..;-1]).to_vec().into(),
+        QLay::Strided => { let mut a = Array1::from_elem(2 * logical.len(), F::of(-777.25)); a.slice_mut(s![..;2]).assign(logical); a }
+    }
+}
+fn qlay_view<'a, F: Fl>(store: &'a Array1<F>, ql: QLay) -> ndarray::ArrayView1<'a, F> {
+    use ndarray::s;
+    match ql { QLay::Fwd => store.view(), QLay::Rev => store.slice(s![..;-1]), QLay::Strided => store.slice(s![..;2]) }
+}
+
+// ---------------------------------------------------------------------------------------------
 // observations
 #[derive(Clone, Debug)]
-enum Outc { Ok(Vec<(usize, Option<Vec<f64>>)>), Err, Panic(String) }
+enum Outc { Ok(Vec<(usize, Option<Vec<f64>>)>), Err, Panic(String), Skip }
 
 fn outc_coq(o: &Outc) -> String {
     match o {
@@ -57,13 +112,14 @@ fn outc_coq(o: &Outc) -> String {
         }
         Outc::Err => "RErr".into(),
         Outc::Panic(_) => "RPanic".into(),
+        Outc::Skip => "RSkip".into(),
     }
 }
 
 #[derive(Clone, Copy, Debug, PartialEq)]
-enum BStat { Ok, ZeroDim, EmptyLeaf, Panic }
+enum BStat { Ok, ZeroDim, EmptyLeaf, Panic, Skip }
 fn bstat_coq(b: BStat) -> &'static str {
-    match b { BStat::Ok => "BOk", BStat::ZeroDim => "BZeroDim", BStat::EmptyLeaf => "BEmptyLeaf", BStat::Panic => "BPanic" }
+    match b { BStat::Ok => "BOk", BStat::ZeroDim => "BZeroDim", BStat::EmptyLeaf => "BEmptyLeaf", BStat::Panic => "BPanic", BStat::Skip => "BSkip" }
 }
 
 enum DT {
@@ -182,6 +238,9 @@ struct Spec {
     /// Some((count, seed)): further queries are aimed at the spheres of the nodes of the ball tree that the
     /// implementation builds for this batch (read from its Debug dump), see `aim_queries`
     aim: Option<(usize, u64)>,
+    /// memory layout of the batch handed to the index kinds, and of the odd-numbered queries
+    lay: Lay,
+    qlay: QLay,
 }
 
 fn next_ulps<F: Fl>(x: F, k: i32) -> F {
@@ -201,7 +260,7 @@ fn observe<F: Fl>(r: Result<Result<Vec<(ndarray::ArrayView1<F>, usize)>, NnError
     }
 }
 
-struct CaseOut { coq: String, tags: Vec<String>, desc: String, suspects: usize, hash: u64, nqueries: usize, nknn: usize, nrange: usize, aimed: usize, raw_answers: usize }
+struct CaseOut { coq: String, tags: Vec<String>, desc: String, suspects: usize, hash: u64, nqueries: usize, nknn: usize, nrange: usize, aimed: usize, raw_answers: usize, qlay_used: usize, kd_build_skip: bool, kd_query_skips: usize }
 
 fn run_spec<F: Fl, D: Distance<F> + Debug + 'static>(sp: &Spec, dist: D) -> CaseOut {
     let n = sp.x.len();
@@ -209,11 +268,26 @@ fn run_spec<F: Fl, D: Distance<F> + Debug + 'static>(sp: &Spec, dist: D) -> Case
     let batch: Array2<F> = Array2::from_shape_vec((n, d), sp.x.iter().flatten().map(|v| F::of(*v)).collect()).unwrap();
     let kinds = [CommonNearestNeighbour::LinearSearch, CommonNearestNeighbour::KdTree, CommonNearestNeighbour::BallTree];
     let mut bstats = vec![];
+    // `batch` holds the logical points in standard layout (tables, comparison of returned coordinates); the
+    // index kinds get `bview`: the same logical array with the memory layout of the case
+    let store = lay_store(&batch, sp.lay);
+    let bview = lay_view(&store, sp.lay);
+    assert!(bview == batch, "layout construction broke the logical content");
+    if n >= 2 && d >= 2 {
+        let st = bview.strides();
+        let ok = match sp.lay { Lay::Std => st[1] == 1 && st[0] == d as isize, Lay::RevCols | Lay::RevColsOwned => st[1] == -1, Lay::RevRows => st[0] == -(d as isize) && st[1] == 1,
+                                Lay::Fortran => st[0] == 1, Lay::StrideRows => st[0] == 2 * d as isize && st[1] == 1, Lay::StrideCols => st[1] == 2, Lay::StrideBoth => st[1] == 2 && st[0] == 4 * d as isize };
+        assert!(ok, "layout {} has strides {:?}", sp.lay.name(), st);
+    }
+    let rows_contiguous = d <= 1 || matches!(sp.lay, Lay::Std | Lay::RevRows | Lay::StrideRows);
+    let mut kd_build_skip = false;
     let mut idxs: Vec<Option<Box<dyn NearestNeighbourIndex<F> + Send + Sync + '_>>> = vec![];
-    for k in kinds.iter() {
+    for (ki, k) in kinds.iter().enumerate() {
         let dd = dist.clone();
-        let b = &batch;
+        let b = &bview;
         match guarded(AssertUnwindSafe(move || k.from_batch_with_leaf_size(b, sp.leaf, dd))) {
+            // documented: "KdTree requires that points be laid out contiguously in memory and will panic otherwise"
+            Err(msg) if ki == 1 && !rows_contiguous && msg.contains("contiguous") => { bstats.push(BStat::Skip); idxs.push(None); kd_build_skip = true; }
             Err(_) => { bstats.push(BStat::Panic); idxs.push(None); }
             Ok(Err(BuildError::ZeroDimension)) => { bstats.push(BStat::ZeroDim); idxs.push(None); }
             Ok(Err(BuildError::EmptyLeaf)) => { bstats.push(BStat::EmptyLeaf); idxs.push(None); }
@@ -227,7 +301,7 @@ fn run_spec<F: Fl, D: Distance<F> + Debug + 'static>(sp: &Spec, dist: D) -> Case
     let mut dump: Option<DT> = None;
     if sp.leaf > 0 && d > 0 {
         let dd = dist.clone();
-        let b = &batch;
+        let b = &bview;
         match guarded(AssertUnwindSafe(move || BallTreeIndex::new(b, sp.leaf, dd).map(|t| format!("{:?}", t)))) {
             Ok(Ok(s)) => match parse_dump::<F>(&s, &batch) {
                 Ok((t, ok)) => { tree_coq = format!("Some {}", dt_coq(&t)); rows_ok = ok; dump = Some(t); }
@@ -237,7 +311,7 @@ fn run_spec<F: Fl, D: Distance<F> + Debug + 'static>(sp: &Spec, dist: D) -> Case
             Err(p) => notes.push(format!("BallTreeIndex::new panicked: {}", p)),
         }
     }
-    let all_ok = bstats.iter().all(|b| *b == BStat::Ok);
+    let all_ok = bstats.iter().all(|b| *b == BStat::Ok || *b == BStat::Skip);
     // queries aimed at the nodes of the dumped tree (stream deep_surface)
     let mut queries: Vec<QuerySpec> = sp.queries.clone();
     let mut aimed = 0usize;
@@ -250,7 +324,7 @@ fn run_spec<F: Fl, D: Distance<F> + Debug + 'static>(sp: &Spec, dist: D) -> Case
     // the external crate behind KdTreeIndex, built the way KdTreeIndex::new builds it (capacity = leaf size,
     // rows added in order); its raw answers are shipped so that the wrapper model can be applied to them
     let flat: Vec<F> = batch.iter().cloned().collect();
-    let kd_raw: Option<kdtree::KdTree<F, usize, &[F]>> = if sp.leaf > 0 && d > 0 {
+    let kd_raw: Option<kdtree::KdTree<F, usize, &[F]>> = if sp.leaf > 0 && d > 0 && !kd_build_skip {
         let fl = &flat;
         guarded(AssertUnwindSafe(move || {
             let mut t = kdtree::KdTree::with_capacity(d.max(1), sp.leaf);
@@ -265,6 +339,8 @@ fn run_spec<F: Fl, D: Distance<F> + Debug + 'static>(sp: &Spec, dist: D) -> Case
         }
     };
     let mut raw_answers = 0usize;
+    let mut qlay_used = 0usize;
+    let mut kd_query_skips = 0usize;
     let mut qterms = vec![];
     let mut qdesc = vec![];
     let mut suspects = 0usize;
@@ -275,9 +351,16 @@ fn run_spec<F: Fl, D: Distance<F> + Debug + 'static>(sp: &Spec, dist: D) -> Case
     let mut has_k0 = false;
     let mut near_border = false;
     if all_ok {
-        for qs in queries.iter() {
+        for (qi, qs) in queries.iter().enumerate() {
             let q: Array1<F> = Array1::from(qs.q.iter().map(|v| F::of(*v)).collect::<Vec<F>>());
             let wellformed = q.len() == d;
+            // the query as the index kinds see it: odd-numbered queries in the query layout of the case
+            let ql = if qi % 2 == 1 { sp.qlay } else { QLay::Fwd };
+            let qstore = qlay_store(&q, ql);
+            let qv = qlay_view(&qstore, ql);
+            assert!(qv == q, "query layout construction broke the logical content");
+            let q_contiguous = q.len() <= 1 || ql == QLay::Fwd;
+            if ql != QLay::Fwd { qlay_used += 1; }
             let (rd, dd): (Vec<F>, Vec<F>) = if wellformed {
                 (batch.rows().into_iter().map(|r| dist.rdistance(q.view(), r)).collect(),
                  batch.rows().into_iter().map(|r| dist.distance(q.view(), r)).collect())
@@ -293,15 +376,17 @@ fn run_spec<F: Fl, D: Distance<F> + Debug + 'static>(sp: &Spec, dist: D) -> Case
             for &k in qs.ks.iter() {
                 if k == 0 && n > 0 && wellformed { has_k0 = true; }
                 let mut res = vec![];
-                for ix in idxs.iter() {
-                    let ix = ix.as_ref().unwrap();
-                    let qq = &q;
-                    let r = guarded(AssertUnwindSafe(|| ix.k_nearest(qq.view(), k)));
-                    res.push(observe(r, &batch, sp.ship_coords));
+                for (ki, ix) in idxs.iter().enumerate() {
+                    let ix = match ix.as_ref() { Some(ix) => ix, None => { res.push(Outc::Skip); continue; } };
+                    let qq = &qv;
+                    let r = guarded(AssertUnwindSafe(|| ix.k_nearest(qq.reborrow(), k)));
+                    match &r { Err(msg) if ki == 1 && !q_contiguous && msg.contains("contiguous") => { kd_query_skips += 1; res.push(Outc::Skip); }
+                               _ => res.push(observe(r, &batch, sp.ship_coords)) }
                 }
-                if wellformed { suspects += res.iter().filter(|o| !knn_plausible(o, &rd, k)).count(); }
-                else { suspects += res.iter().filter(|o| !matches!(o, Outc::Err)).count(); }
-                let raw: Option<Vec<(F, usize)>> = if wellformed { kd_raw.as_ref().and_then(|t| {
+                let kd_skipped = matches!(res[1], Outc::Skip);
+                if wellformed { suspects += res.iter().filter(|o| !matches!(o, Outc::Skip) && !knn_plausible(o, &rd, k)).count(); }
+                else { suspects += res.iter().filter(|o| !matches!(o, Outc::Err | Outc::Skip)).count(); }
+                let raw: Option<Vec<(F, usize)>> = if wellformed && !kd_skipped { kd_raw.as_ref().and_then(|t| {
                     let (qq, dd) = (&q, &dist);
                     guarded(AssertUnwindSafe(|| t.nearest(qq.as_slice().unwrap(), k, &|a: &[F], b: &[F]| dd.rdistance(ndarray::aview1(a), ndarray::aview1(b)))
                         .ok().map(|v| v.into_iter().map(|(dv, i)| (dv, *i)).collect::<Vec<_>>()))).ok().flatten() }) } else { None };
@@ -317,16 +402,18 @@ fn run_spec<F: Fl, D: Distance<F> + Debug + 'static>(sp: &Spec, dist: D) -> Case
                     near_border = true;
                 }
                 let mut res = vec![];
-                for ix in idxs.iter() {
-                    let ix = ix.as_ref().unwrap();
-                    let qq = &q;
-                    let o = guarded(AssertUnwindSafe(|| ix.within_range(qq.view(), r)));
-                    res.push(observe(o, &batch, sp.ship_coords));
+                for (ki, ix) in idxs.iter().enumerate() {
+                    let ix = match ix.as_ref() { Some(ix) => ix, None => { res.push(Outc::Skip); continue; } };
+                    let qq = &qv;
+                    let o = guarded(AssertUnwindSafe(|| ix.within_range(qq.reborrow(), r)));
+                    match &o { Err(msg) if ki == 1 && !q_contiguous && msg.contains("contiguous") => { kd_query_skips += 1; res.push(Outc::Skip); }
+                               _ => res.push(observe(o, &batch, sp.ship_coords)) }
                 }
-                if wellformed { suspects += res.iter().filter(|o| !range_plausible(o, &rd, rr)).count(); }
-                else { suspects += res.iter().filter(|o| !matches!(o, Outc::Err)).count(); }
+                let kd_skipped = matches!(res[1], Outc::Skip);
+                if wellformed { suspects += res.iter().filter(|o| !matches!(o, Outc::Skip) && !range_plausible(o, &rd, rr)).count(); }
+                else { suspects += res.iter().filter(|o| !matches!(o, Outc::Err | Outc::Skip)).count(); }
                 rdesc.push(format!("{{\"radius\": {:e}, \"lin\": {}, \"kd\": {}, \"ball\": {}}}", r.f64(), outc_desc(&res[0]), outc_desc(&res[1]), outc_desc(&res[2])));
-                let raw: Option<Vec<(F, usize)>> = if wellformed { kd_raw.as_ref().and_then(|t| {
+                let raw: Option<Vec<(F, usize)>> = if wellformed && !kd_skipped { kd_raw.as_ref().and_then(|t| {
                     let (qq, dd) = (&q, &dist);
                     guarded(AssertUnwindSafe(|| t.within(qq.as_slice().unwrap(), rr, &|a: &[F], b: &[F]| dd.rdistance(ndarray::aview1(a), ndarray::aview1(b)))
                         .ok().map(|v| v.into_iter().map(|(dv, i)| (dv, *i)).collect::<Vec<_>>()))).ok().flatten() }) } else { None };
@@ -354,6 +441,10 @@ fn run_spec<F: Fl, D: Distance<F> + Debug + 'static>(sp: &Spec, dist: D) -> Case
             tags.push("sq_underflow".into());
         }
     }
+    tags.push(format!("layout_{}", sp.lay.name()));
+    if qlay_used > 0 { tags.push(format!("qlayout_{}", sp.qlay.name())); }
+    if kd_build_skip { tags.push("kd_rejects_batch_layout".into()); }
+    if kd_query_skips > 0 { tags.push("kd_rejects_query_layout".into()); }
     if has_k0 { tags.push("has_k0_nonempty".into()); }
     if near_border { tags.push("near_border".into()); }
     if sp.leaf == 0 || d == 0 { tags.push("malformed_build".into()); }
@@ -365,15 +456,15 @@ fn run_spec<F: Fl, D: Distance<F> + Debug + 'static>(sp: &Spec, dist: D) -> Case
         bstats.iter().map(|b| bstat_coq(*b)).collect::<Vec<_>>().join("; "), tree_coq, cbool(rows_ok), qterms.join(";\n ")
     );
     let desc = format!(
-        "{{\"stream\": {}, \"family\": {}, \"metric\": {}, \"float\": {}, \"n\": {}, \"dim\": {}, \"leaf_size\": {}, \"build\": {:?}, \"X\": {:?}, \"rust_side_suspect_answers\": {}, \"aimed_queries\": {}, \"notes\": {:?}, \"queries\": [{}]}}",
-        jstr(sp.stream), jstr(&sp.family), jstr(&sp.met.name()), jstr(if F::F32 { "f32" } else { "f64" }), n, d, sp.leaf,
+        "{{\"stream\": {}, \"family\": {}, \"metric\": {}, \"float\": {}, \"n\": {}, \"dim\": {}, \"leaf_size\": {}, \"batch_layout\": {}, \"odd_query_layout\": {}, \"build\": {:?}, \"X\": {:?}, \"rust_side_suspect_answers\": {}, \"aimed_queries\": {}, \"notes\": {:?}, \"queries\": [{}]}}",
+        jstr(sp.stream), jstr(&sp.family), jstr(&sp.met.name()), jstr(if F::F32 { "f32" } else { "f64" }), n, d, sp.leaf, jstr(sp.lay.name()), jstr(sp.qlay.name()),
         bstats.iter().map(|b| bstat_coq(*b)).collect::<Vec<_>>(), xs, suspects, aimed, notes, qdesc.join(", ")
     );
     let mut hv: Vec<f64> = xs.concat();
     for q in queries.iter() { hv.extend(q.q.iter()); hv.extend(q.ks.iter().map(|k| *k as f64)); }
-    let hash = fnv_f64s(&hv, sp.met.code() << 16 | (sp.leaf as u64) << 8 | F::F32 as u64);
+    let hash = fnv_f64s(&hv, (sp.lay as u64) << 32 | (sp.qlay as u64) << 28 | sp.met.code() << 16 | (sp.leaf as u64) << 8 | F::F32 as u64);
     let (nknn, nrange) = if all_ok { (queries.iter().map(|q| q.ks.len()).sum(), queries.iter().map(|q| q.radii.len()).sum()) } else { (0, 0) };
-    CaseOut { coq, tags, desc, suspects, hash, nqueries: queries.len(), nknn, nrange, aimed, raw_answers }
+    CaseOut { coq, tags, desc, suspects, hash, nqueries: queries.len(), nknn, nrange, aimed, raw_answers, qlay_used, kd_build_skip, kd_query_skips }
 }
 
 fn outc_desc(o: &Outc) -> String {
@@ -381,6 +472,7 @@ fn outc_desc(o: &Outc) -> String {
         Outc::Ok(v) => format!("{:?}", v.iter().map(|x| x.0).collect::<Vec<_>>()),
         Outc::Err => "\"Err\"".into(),
         Outc::Panic(p) => jstr(&format!("PANIC: {}", p)),
+        Outc::Skip => "\"documented panic: k-d tree needs contiguous points\"".into(),
     }
 }
 // brute-force plausibility of an answer (only used to point at the suspicious query in the
@@ -594,7 +686,7 @@ fn specs(seed: u64, tier: &str) -> Vec<Spec> {
                     rads = rads.into_iter().enumerate().filter(|(j, _)| (j + si / 2) % 2 == 0).map(|x| x.1).collect();
                 }
                 let queries = qpts.into_iter().map(|q| QuerySpec { q, ks: (0..=n + 1).collect(), radii: rads.clone() }).collect();
-                v.push(Spec { id, stream: "exhaustive", family: format!("small{}d", d), met, f32_: false, x: x.clone(), dim: *d, leaf: *leaf, queries, ship_coords: true, aim: None });
+                v.push(Spec { id, stream: "exhaustive", family: format!("small{}d", d), met, f32_: false, x: x.clone(), dim: *d, leaf: *leaf, queries, ship_coords: true, aim: None, lay: Lay::Std, qlay: QLay::Fwd });
                 id += 1;
             }
         }
@@ -615,7 +707,7 @@ fn specs(seed: u64, tier: &str) -> Vec<Spec> {
         let nq = if thorough { 6 } else { 5 };
         let queries = gen_queries(&mut r, family, &x, d, nq);
         let small_case = n * d <= 8;
-        v.push(Spec { id, stream: if matches!(met, Met::Lp(_)) { "lp" } else { "random" }, family: family.into(), met, f32_, x, dim: d, leaf, queries, ship_coords: small_case, aim: None });
+        v.push(Spec { id, stream: if matches!(met, Met::Lp(_)) { "lp" } else { "random" }, family: family.into(), met, f32_, x, dim: d, leaf, queries, ship_coords: small_case, aim: None, lay: Lay::Std, qlay: QLay::Fwd });
         id += 1;
     }
     // (c) malformed builds and queries
@@ -623,7 +715,7 @@ fn specs(seed: u64, tier: &str) -> Vec<Spec> {
         for (mi, met) in mets.iter().enumerate() {
             if !thorough && (n + d + leaf + mi) % 2 == 1 { continue; }
             let x: Vec<Vec<f64>> = (0..n).map(|i| (0..d).map(|j| (i * 2 + j) as f64).collect()).collect();
-            v.push(Spec { id, stream: "malformed", family: "malformed_build".into(), met: *met, f32_: mi == 1 && n == 1, x, dim: d, leaf, queries: vec![], ship_coords: false, aim: None });
+            v.push(Spec { id, stream: "malformed", family: "malformed_build".into(), met: *met, f32_: mi == 1 && n == 1, x, dim: d, leaf, queries: vec![], ship_coords: false, aim: None, lay: Lay::Std, qlay: QLay::Fwd });
             id += 1;
         }
     }
@@ -637,7 +729,7 @@ fn specs(seed: u64, tier: &str) -> Vec<Spec> {
                 if *qd == d && queries.len() >= 4 { /* one well-formed query among them */ }
                 queries.push(QuerySpec { q: (0..*qd).map(|j| j as f64).collect(), ks: vec![0, 1, n + 1], radii: vec![RadSpec::Abs(0.0), RadSpec::Abs(2.0)] });
             }
-            v.push(Spec { id, stream: "malformed", family: "malformed_query".into(), met: *met, f32_: false, x, dim: d, leaf, queries, ship_coords: false, aim: None });
+            v.push(Spec { id, stream: "malformed", family: "malformed_query".into(), met: *met, f32_: false, x, dim: d, leaf, queries, ship_coords: false, aim: None, lay: Lay::Std, qlay: QLay::Fwd });
             id += 1;
         }
     }
@@ -650,7 +742,7 @@ fn specs(seed: u64, tier: &str) -> Vec<Spec> {
     ].iter() {
         for met in mets.iter() {
             v.push(Spec { id, stream: "corpus", family: "corpus".into(), met: *met, f32_: false, x: x.clone(), dim: 2, leaf: *leaf,
-                          queries: vec![QuerySpec { q: q.clone(), ks: vec![0, 1, 2, 3], radii: radii.clone() }], ship_coords: true, aim: None });
+                          queries: vec![QuerySpec { q: q.clone(), ks: vec![0, 1, 2, 3], radii: radii.clone() }], ship_coords: true, aim: None, lay: Lay::Std, qlay: QLay::Fwd });
             id += 1;
         }
     }
@@ -691,7 +783,7 @@ fn specs(seed: u64, tier: &str) -> Vec<Spec> {
             let fac = if f32_ { 1.0 + 2.0e-5 } else { 1.0 + 1.0e-8 };
             queries.push(QuerySpec { q, ks: vec![1, 2], radii: vec![RadSpec::DistTo(a, 0, fac), RadSpec::DistTo(a, 2, 1.0), RadSpec::DistTo(a, 0, 1.0), RadSpec::DistTo(a, 64, 1.0)] });
         }
-        v.push(Spec { id, stream: "surface", family: "surface".into(), met, f32_, x, dim: d, leaf, queries, ship_coords: n * d <= 8, aim: None });
+        v.push(Spec { id, stream: "surface", family: "surface".into(), met, f32_, x, dim: d, leaf, queries, ship_coords: n * d <= 8, aim: None, lay: Lay::Std, qlay: QLay::Fwd });
         id += 1;
     }
     // (f) the same construction for the nodes of deeper trees: 12..64 points, leaf size 2..4; the queries are
@@ -714,7 +806,7 @@ fn specs(seed: u64, tier: &str) -> Vec<Spec> {
         let met = match r.below(10) { 0 | 1 => Met::L1, 2 | 3 => Met::Linf, 4 => Met::Lp(3.0), _ => Met::L2 };
         let queries = gen_queries(&mut r, if family == "deep_lattice" { "lattice" } else { "uniform" }, &x, d, 2);
         let seed2 = r.next();
-        v.push(Spec { id, stream: "deep_surface", family: family.into(), met, f32_, x, dim: d, leaf, queries, ship_coords: false, aim: Some((if f32_ { 6 } else { 8 }, seed2)) });
+        v.push(Spec { id, stream: "deep_surface", family: family.into(), met, f32_, x, dim: d, leaf, queries, ship_coords: false, aim: Some((if f32_ { 6 } else { 8 }, seed2)), lay: Lay::Std, qlay: QLay::Fwd });
         id += 1;
     }
     // (g) k-nearest across a narrow gap: two leaves {a, a'} and {b, b'} of non-zero radius face each other
@@ -740,7 +832,7 @@ fn specs(seed: u64, tier: &str) -> Vec<Spec> {
         for tau in [0.0, 0.25, -0.25, 0.5, 0.75, -1.0].iter() {
             queries.push(QuerySpec { q: at(tau * g * delta), ks: vec![1, 2, 3], radii: vec![RadSpec::DistTo(0, 2, 1.0), RadSpec::DistTo(2, 2, 1.0), RadSpec::DistTo(2, 0, 1.0)] });
         }
-        v.push(Spec { id, stream: "knn_gap", family: "knn_gap".into(), met, f32_: false, x, dim: d, leaf, queries, ship_coords: false, aim: None });
+        v.push(Spec { id, stream: "knn_gap", family: "knn_gap".into(), met, f32_: false, x, dim: d, leaf, queries, ship_coords: false, aim: None, lay: Lay::Std, qlay: QLay::Fwd });
         id += 1;
     }
     // (h) tiny scales: coordinates around 2^-500 .. 2^-1060, where squared differences fall below the normal
@@ -750,7 +842,7 @@ fn specs(seed: u64, tier: &str) -> Vec<Spec> {
     v.push(Spec { id, stream: "tiny_scale", family: "tiny_witness".into(), met: Met::L2, f32_: false,
                   x: vec![vec![0.0], vec![60.0 * 2.0f64.powi(-537)]], dim: 1, leaf: 2,
                   queries: vec![QuerySpec { q: vec![60.7002 * 2.0f64.powi(-537)], ks: vec![1, 2], radii: vec![RadSpec::Abs(2.0f64.powi(-537)), RadSpec::Abs(2.0f64.powi(-536))] }],
-                  ship_coords: true, aim: None });
+                  ship_coords: true, aim: None, lay: Lay::Std, qlay: QLay::Fwd });
     id += 1;
     let ntiny = if thorough { 200 } else { 28 };
     for i in 0..ntiny {
@@ -766,7 +858,30 @@ fn specs(seed: u64, tier: &str) -> Vec<Spec> {
             if !x.iter().any(|p| *p == qs.q) && qs.q.iter().all(|v| v.abs() >= 0.25 || *v == 0.0) { for v in qs.q.iter_mut() { *v *= sc; } }
             for rs in qs.radii.iter_mut() { if let RadSpec::Abs(a) = rs { *rs = RadSpec::Abs(*a * sc * 16.0); } }
         }
-        v.push(Spec { id, stream: "tiny_scale", family: "tiny_scale".into(), met, f32_: false, x, dim: d, leaf, queries, ship_coords: false, aim: Some((6, r.next())) });
+        v.push(Spec { id, stream: "tiny_scale", family: "tiny_scale".into(), met, f32_: false, x, dim: d, leaf, queries, ship_coords: false, aim: Some((6, r.next())), lay: Lay::Std, qlay: QLay::Fwd });
+        id += 1;
+    }
+    // (i) memory layouts: the same logical batch in standard layout, with a reversed feature axis (view, and owned
+    //     array keeping the negative stride), reversed row axis, column-major storage, and as a step-2 slice of a
+    //     wider array (rows, columns, both); odd-numbered queries reversed / strided; every metric incl. Lp.
+    //     Coordinates are anisotropic (coordinate j scaled by j+1) so that a reversed pairing changes distances.
+    let nlay = if thorough { 384 } else { 72 };
+    for i in 0..nlay {
+        let mut r = rng.fork();
+        let lay = LAYS[i % LAYS.len()];
+        let qlay = [QLay::Rev, QLay::Fwd, QLay::Strided][(i / LAYS.len()) % 3];
+        let d = match r.below(8) { 0 => 1, 1..=3 => 2, 4..=5 => 3, 6 => 4, _ => 5 + r.below(3) as usize };
+        let n = match r.below(10) { 0 => 0, 1 => 1, _ => 2 + r.below(18) as usize };
+        let family = *r.pick(&["lattice", "uniform", "blobs", "frac"]);
+        let mut x = gen_points(&mut r, family, n, d);
+        for p in x.iter_mut() { for (j, v) in p.iter_mut().enumerate() { *v *= (j + 1) as f64; } }
+        let f32_ = i % 9 == 8;
+        let x: Vec<Vec<f64>> = if f32_ { x.iter().map(|p| p.iter().map(|v| *v as f32 as f64).collect()).collect() } else { x };
+        let leaf = *r.pick(&[1usize, 2, 3, 16]);
+        let met = match (i / 3) % 6 { 0 => Met::Lp(3.0), 1 => Met::L2, 2 => Met::Lp(1.5), 3 => Met::L1, 4 => Met::Lp(4.0), _ => Met::Linf };
+        let mut queries = gen_queries(&mut r, family, &x, d, 4);
+        for qs in queries.iter_mut() { if !x.iter().any(|p| *p == qs.q) { for (j, v) in qs.q.iter_mut().enumerate() { *v *= (j + 1) as f64; } } }
+        v.push(Spec { id, stream: "layout", family: family.into(), met, f32_, x, dim: d, leaf, queries, ship_coords: n * d <= 8, aim: None, lay, qlay });
         id += 1;
     }
     v
@@ -806,6 +921,10 @@ fn work(args: &Args, skip: &[u64], crashed: &[(u64, String)], stop_before: Optio
         out.bump_by("range_answers", 3 * c.nrange as u64);
         out.bump_by("queries_aimed_at_dumped_nodes", c.aimed as u64);
         out.bump_by("kdtree_crate_raw_answers", c.raw_answers as u64);
+        out.bump(&format!("layout_{}", sp.lay.name()));
+        if c.qlay_used > 0 { out.bump_by(&format!("queries_in_layout_{}", sp.qlay.name()), c.qlay_used as u64); }
+        if c.kd_build_skip { out.bump("kd_tree_documented_panic_on_batch_layout"); }
+        out.bump_by("kd_tree_documented_panic_on_query_layout_answers", c.kd_query_skips as u64);
         for t in c.tags.iter() { if t == "near_border" || t == "has_k0_nonempty" || t == "sq_underflow" { out.bump(&format!("tag_{}", t)); } }
         if c.suspects > 0 { out.bump("cases_with_rust_side_suspects"); }
         let tagrefs: Vec<&str> = c.tags.iter().map(|s| s.as_str()).collect();
@@ -813,7 +932,7 @@ fn work(args: &Args, skip: &[u64], crashed: &[(u64, String)], stop_before: Optio
         let key = if sp.x.len() >= 2 && distinct >= 1 && c.nqueries > 0 { Some(c.hash) } else { None };
         out.case(sp.id, &c.coq, &tagrefs, &c.desc, key);
     }
-    out.finish("point sets: exhaustive over {0,1,2}^1 (n<=4) and {0,1}^2 (n<=3) x leaf size {1,2}; random from 8 families (integer lattice, all-equal, heavy duplicates, Gaussian blobs, uniform cloud, collinear lattice, fractional lattice, large offset), dimension 1..16, f64 and f32, leaf sizes 1,2,3,4,16,n, metrics L1/L2/Linf/Lp; queries: stored points, lattice points, midpoints, mirror images (sphere borders), far points; k in {0,1,2,n/2,n-1,n,n+1,n+2}; radii 0, computed distances to stored points (+-1 ulp, halves), beyond the diameter; near-surface queries (just outside a ball, on the ray centre -> border point, radii a few ulps beyond that point) for small batches and, aimed through the Debug dump of the implementation's tree, for the branch and leaf nodes of trees over 12..64 points with leaf size 2..4; tiny scales (coordinates 2^-500 .. 2^-1060, squared distances below the normal range); k-nearest queries in a narrow gap between two balls whose border points differ in distance by a relative 1e-9..1e-12; the raw answers of the kdtree crate (nearest / within on a tree built like KdTreeIndex::new) for every well-formed query; malformed builds/queries; a case is non-trivial when it has >= 2 points and >= 1 query; distinct = distinct (points, metric, leaf size, queries) hashes");
+    out.finish("point sets: exhaustive over {0,1,2}^1 (n<=4) and {0,1}^2 (n<=3) x leaf size {1,2}; random from 8 families (integer lattice, all-equal, heavy duplicates, Gaussian blobs, uniform cloud, collinear lattice, fractional lattice, large offset), dimension 1..16, f64 and f32, leaf sizes 1,2,3,4,16,n, metrics L1/L2/Linf/Lp; queries: stored points, lattice points, midpoints, mirror images (sphere borders), far points; k in {0,1,2,n/2,n-1,n,n+1,n+2}; radii 0, computed distances to stored points (+-1 ulp, halves), beyond the diameter; near-surface queries (just outside a ball, on the ray centre -> border point, radii a few ulps beyond that point) for small batches and, aimed through the Debug dump of the implementation's tree, for the branch and leaf nodes of trees over 12..64 points with leaf size 2..4; memory layouts of the batch (standard, reversed feature axis as view and as owned array, reversed row axis, column-major, step-2 slices of a wider array) and of the queries (forward, reversed, strided) for the same logical points, all metrics incl. Lp; tiny scales (coordinates 2^-500 .. 2^-1060, squared distances below the normal range); k-nearest queries in a narrow gap between two balls whose border points differ in distance by a relative 1e-9..1e-12; the raw answers of the kdtree crate (nearest / within on a tree built like KdTreeIndex::new) for every well-formed query; malformed builds/queries; a case is non-trivial when it has >= 2 points and >= 1 query; distinct = distinct (points, metric, leaf size, queries) hashes");
 }
 
 fn main() {
